@@ -517,9 +517,12 @@ class Report:
                 print("KNOWN-FINDING: property=%s %s [%s; %d case(s) this run, e.g. %s]" % (
                     self.pid, f["what"], f["id"], len(self.known[f["id"]]),
                     json.dumps(ex.get("short", ex))[:200]))
-        if inconclusive:
+        if inconclusive and not self.violations:
             print("INCONCLUSIVE property=%s %s" % (self.pid, inconclusive))
             return 2
+        if inconclusive:
+            # a reproduced violation stands; what could not be decided besides it is reported too
+            print("NOTE property=%s partly inconclusive: %s" % (self.pid, inconclusive[:600]))
         if self.violations:
             # group by role signature so that one replay file describes one kind of failure
             seen = {}
